@@ -166,9 +166,13 @@ def run(prog, rep):
         # C12.assign: same obligations as C11.unmap, reported under this property's rule id
         sub = _Relabel(rep, "C11.unmap", "C12.assign")
         rep.part(c11.unmap, prog, sub, fam, mi)
+        # a value fixed by the user enters the likelihood through its scipy slot: a keyword in the wrong slot or with the
+        # wrong mapping (scale vs reciprocal, exp) optimises the remaining parameters for another model (same rows as C11.mle)
+        rep.part(c11.mle, prog, _Relabel(rep, "C11.mle", "C12.fixed"), fam, mi)
     rep.expect_min("C12.dispatch", 4)
     rep.expect_min("C12.call", 22)
     rep.expect_min("C12.assign", 15)
+    rep.expect_min("C12.fixed", 17)
 
 
 class _Relabel:
